@@ -1,7 +1,7 @@
 (* C20 — meta-variable syntax is uniform across languages; small notations are exact.
    Property theorems only; proofs live in Str/*Proofs.v. *)
 From Coq Require Import List NArith ZArith Bool.
-From AG Require Import Base.Val Gen.Tables Str.MetaVar Str.MetaVarProofs Str.AnB Str.AnBProofs
+From AG Require Import Base.Val Gen.Tables Str.MetaVar Str.MetaVarProofs Str.AnB Str.AnBProofs Str.AnBParseProofs
   Str.Substring Str.SubstringProofs.
 Import ListNotations.
 
@@ -60,6 +60,29 @@ Print Assumptions C20_anb_index.
 Theorem C20_anb_no_panic : forall a b i0, is_matched a b i0 <> None.
 Proof. exact is_matched_no_panic. Qed.
 Print Assumptions C20_anb_no_panic.
+
+(* 3b. the *text* of a formula: "[sign] digits n (+|-) digits" with magnitudes below 2^31 parses to exactly the
+       (A, B) it spells, for digit strings of any length; every such pair has a spelling (canonical rendering
+       round trip); white space is ignored wherever it stands. With C20_anb_index this ties formula text to the
+       selected indices. *)
+Theorem C20_anb_parse_formula : forall sa da0 das sb db0 dbs,
+  Forall isd (da0 :: das) -> Forall isd (db0 :: dbs) ->
+  (dval (da0 :: das) 0 <= i32_max)%Z -> (dval (db0 :: dbs) 0 <= i32_max)%Z ->
+  parse_an_b (formula sa (da0 :: das) sb (db0 :: dbs))
+  = AnbOk (osgnz sa * dval (da0 :: das) 0)%Z (dval (db0 :: dbs) 0 * sgnz sb)%Z.
+Proof. exact parse_an_b_formula. Qed.
+Print Assumptions C20_anb_parse_formula.
+
+Theorem C20_anb_parse_render : forall a b,
+  (- i32_max <= a <= i32_max)%Z -> (- i32_max <= b <= i32_max)%Z ->
+  parse_an_b (render a b) = AnbOk a b.
+Proof. exact parse_an_b_render. Qed.
+Print Assumptions C20_anb_parse_render.
+
+Theorem C20_anb_parse_whitespace : forall cs,
+  parse_an_b (filter (fun c => negb (is_whitespace c)) cs) = parse_an_b cs.
+Proof. exact parse_an_b_ignores_whitespace. Qed.
+Print Assumptions C20_anb_parse_whitespace.
 
 (* 4. substring follows Python slice semantics on characters, for all i32 (indeed all integer) bounds *)
 Theorem C20_substring : forall (A : Type) (chars : list A) (s e : option Z),
